@@ -923,7 +923,7 @@ Qed.
 
 Lemma step_f_eq C s x : step_f C s x = step C s x.
 Proof.
-  destruct x; try reflexivity; cbn [step_f step].
+  destruct x; cbn [step_f step]; [reflexivity|reflexivity|reflexivity| | | |reflexivity|reflexivity|reflexivity].
   - unfold print_f, print, print_ex_f, print_ex. destruct (fsz s <=? p s + len l); [|reflexivity].
     apply ex_loop_f_eq; [reflexivity|exact I].
   - unfold print_indent_f, print_indent, print_ex_f, print_ex. destruct (fsz s <? p s + n); [|reflexivity].
